@@ -178,8 +178,21 @@ def _gsub(text, m):
     return rx.sub(lambda mo: m[mo.group(1)], text)
 
 
-def gkey(text, names):
+def _ordered(text, names):
+    """type/const parameters in the order of their first appearance in the item's path (so that `impl<const K: usize, C, S>` and
+    `impl<A, const K: usize, S>` for the same `Kmer<_, _, _>` agree), the ones the path does not mention after them, as declared"""
     names = _tygens(names)
+    t = _LT.sub("'_", text or "")
+    pos = {}
+    for n in names:
+        m = re.search(r"(?<![\w:'])" + re.escape(n) + r"(?![\w])", t)
+        pos[n] = m.start() if m else None
+    inpath = sorted([n for n in names if pos[n] is not None], key=lambda n: pos[n])
+    return inpath + [n for n in names if pos[n] is None]
+
+
+def gkey(text, names):
+    names = _ordered(text, names)
     return _gsub(_LT.sub("'_", text or ""), {n: "$%d" % i for i, n in enumerate(names)})
 
 
@@ -190,25 +203,25 @@ def _impl_key(imp):
 def freeze_generics(data):
     out = {"fn": {}, "impl": {}, "adt": {}}
 
-    def put(tab, k, names):
-        names = _tygens(names)
+    def put(tab, k, names, text=""):
+        names = _ordered(text, names)
         if k in tab and tab[k] != names:
             tab[k] = None          # ambiguous: never renamed
         else:
             tab[k] = names
     for b in data["bodies"]:
-        put(out["fn"], gkey(b["path"], b.get("generics")), b.get("generics"))
+        put(out["fn"], gkey(b["path"], b.get("generics")), b.get("generics"), b["path"])
     for f in data.get("fns", []):
         pass
     for i in data["impls"]:
-        put(out["impl"], _impl_key(i), i.get("generics"))
+        put(out["impl"], _impl_key(i), i.get("generics"), i.get("trait_ref") or i.get("self_ty") or "")
     for a in data["adts"]:
         put(out["adt"], a["path"], a.get("generics"))
     return out
 
 
-def _rmap(names, fnames):
-    names = _tygens(names)
+def _rmap(names, fnames, text=""):
+    names = _ordered(text, names)
     if not fnames or len(names) != len(fnames):
         return {}
     return {a: b for a, b in zip(names, fnames) if a != b}
@@ -221,13 +234,13 @@ def canon_generics(d, fz):
     report = {}
     impl_R = {}
     for i in d["impls"]:
-        impl_R[i["id"]] = _rmap(i.get("generics"), fz["impl"].get(_impl_key(i)))
+        impl_R[i["id"]] = _rmap(i.get("generics"), fz["impl"].get(_impl_key(i)), i.get("trait_ref") or i.get("self_ty") or "")
     body_R, path_R = {}, {}
     for b in d["bodies"]:
         R = None
         k = gkey(b["path"], b.get("generics"))
         if k in fz["fn"]:
-            R = _rmap(b.get("generics"), fz["fn"][k])
+            R = _rmap(b.get("generics"), fz["fn"][k], b["path"])
         else:
             # a new function (or a renumbered closure): the names of its impl, else of the enclosing function
             imp = b.get("impl") or {}
